@@ -10,8 +10,11 @@ harness diffs against /repo on every run (ok value / err / panic).
 Parameters: `E : Convert.Env` carries what the conversion files take from
 elsewhere — the type result of `unify` (C09) and the hash / equivalence / order of
 set members (C03).  Theorems hold for every `E` satisfying the stated laws
-(`UnifyLaws`, `SetLaws`; both hold of `Env.simple`, and the harness probes them on
-the real code), every fuel, and values / types of any depth.  Capsule types have
+(`UnifyLaws`: identical types unify to that type; `SetLaws`: hash and equivalence do
+not panic on well-typed, mark-free, wholly-known members), every fuel, and values /
+types of any depth.  Both laws are PROVED of `Convert.driverEnv`, the environment the
+correspondence driver runs (`unifyLaws_driver`, `setLaws_driver`), and the main
+clauses are restated for it without law hypotheses (`…_driver`).  Capsule types have
 no conversion callbacks in the model.
 
 "Placeholder-free" theorems (`…_partial`) assume `RegularPair v want`: a
@@ -26,6 +29,9 @@ import CtyModel.Lemmas.ConvertSafe
 import CtyModel.Lemmas.ConvertRoundtrip
 import CtyModel.Generated.PrimConv
 import CtyModel.ConvertUnify
+import CtyModel.ConvertD08Env
+import CtyModel.Lemmas.ConvertD08SetEnv
+import CtyModel.Lemmas.UnifyTyLaws
 namespace CtyModel
 namespace C08
 open Convert Ty
@@ -123,7 +129,7 @@ theorem identity_own_type (E : Env) (fuel : Nat) (v : Value) (hw : Value.wt v = 
   simp only [Value.wt, Bool.and_eq_true, Bool.not_eq_true'] at hw
   apply convert_identity
   rw [stripOpt_id_of_noOpt _ hw.1.2]
-  exact equals_self hw.1.1
+  exact Convert.equals_self hw.1.1
 
 /-- Converting the result again gives the same result. -/
 theorem idempotent_partial (E : Env) (hU : UnifyLaws E) (fuel fuel' : Nat) (v r : Value) (want : Ty)
@@ -384,6 +390,87 @@ theorem primConv_table (a b : Ty) (ha : isPrim a = true) (hb : isPrim b = true) 
     (primSafe a b).isSome = Generated.primConvSafe.any (fun p => p.1.equals a && p.2.equals b) ∧
     (primUnsafe a b).isSome = Generated.primConvUnsafe.any (fun p => p.1.equals a && p.2.equals b) := by
   cases a <;> simp [isPrim] at ha <;> cases b <;> simp [isPrim] at hb <;> decide
+
+/-! ## Well-typedness is preserved -/
+
+/-- The result of a successful conversion of a well-typed value (to a placeholder-free target)
+is well typed: a well-formed type without optional-attribute annotations and a payload that
+type can have, at every depth — so it can be fed to another conversion (C09's composed
+conversions rely on this). -/
+theorem result_well_typed_partial (E : Env) (hU : UnifyLaws E) (fuel : Nat) (v r : Value) (want : Ty)
+    (hp : RegularPair v want) (h : convert E fuel v want = .ok r) : Value.wt r = true :=
+  (convert_wt hU hp h).1
+
+/-- … and it holds no unknown at any depth when the input held none. -/
+theorem result_wholly_known_partial (E : Env) (hU : UnifyLaws E) (fuel : Nat) (v r : Value) (want : Ty)
+    (hp : RegularPair v want) (hk : Payload.whollyKnown v.v = true) (h : convert E fuel v want = .ok r) :
+    Payload.whollyKnown r.v = true :=
+  (convert_wt hU hp h).2 hk
+
+/-- The same for a conversion obtained from `GetConversion` / `GetConversionUnsafe`. -/
+theorem result_well_typed_getConversion_partial (E : Env) (hU : UnifyLaws E) (fuel : Nat) (uns : Bool)
+    (v r : Value) (want : Ty) (p : Plan) (hp : RegularPair v want)
+    (hg : getConv E v.ty want uns = some p) (h : apply E fuel p v = .ok r) :
+    Value.wt r = true ∧ (Payload.whollyKnown v.v = true → Payload.whollyKnown r.v = true) :=
+  apply_wt hU hp hg h
+
+/-! ## The laws hold of the environment the driver runs
+
+`Convert.driverEnv` is the `Env` of `Driver/HConvert.lean` (every `cv.*` operation diffed
+against /repo uses it).  The two laws the theorems above assume are theorems about it. -/
+
+/-- `unify` of the driver (`Unify.unifyTy`, fuel computed from the argument): identical
+well-formed annotation-free types unify to that type, at every depth. -/
+theorem unifyLaws_driver : UnifyLaws driverEnv := Unify.unifyLaws_std (Env.concrete Unify.unifyTy)
+
+/-- `setRules.Hash` / `setRules.Equivalent` of the driver (`hashC`, `equivC`): no panic and no
+error on well-typed, mark-free, wholly-known members of a well-formed element type. -/
+theorem setLaws_driver : SetLaws driverEnv := setLaws_concrete _
+
+theorem result_type_driver (fuel : Nat) (v r : Value) (want : Ty)
+    (hp : RegularPair v want) (h : convert driverEnv fuel v want = .ok r) : r.ty = want.stripOpt :=
+  result_type_partial _ unifyLaws_driver fuel v r want hp h
+
+theorem result_conforms_driver (fuel : Nat) (v r : Value) (want : Ty)
+    (hp : RegularPair v want) (h : convert driverEnv fuel v want = .ok r) : conformsTo want r = true :=
+  result_conforms_partial _ unifyLaws_driver fuel v r want hp h
+
+theorem result_well_typed_driver (fuel : Nat) (v r : Value) (want : Ty)
+    (hp : RegularPair v want) (h : convert driverEnv fuel v want = .ok r) : Value.wt r = true :=
+  result_well_typed_partial _ unifyLaws_driver fuel v r want hp h
+
+theorem idempotent_driver (fuel fuel' : Nat) (v r : Value) (want : Ty)
+    (hp : RegularPair v want) (h : convert driverEnv fuel v want = .ok r) :
+    convert driverEnv fuel' r want = .ok r :=
+  idempotent_partial _ unifyLaws_driver fuel fuel' v r want hp h
+
+/-- `Convert`, in the environment that is diffed against the Go code, never panics on a
+well-typed wholly-known value and a placeholder-free target — no hypothesis on the environment left. -/
+theorem no_panic_driver (fuel : Nat) (v : Value) (want : Ty)
+    (hp : RegularPair v want) (hk : Payload.whollyKnown v.v = true) :
+    (convert driverEnv fuel v want).isPanic = false :=
+  no_panic_partial _ unifyLaws_driver setLaws_driver fuel v want hp hk
+
+theorem no_panic_getConversion_driver (fuel : Nat) (uns : Bool) (v : Value) (want : Ty) (p : Plan)
+    (hp : RegularPair v want) (hk : Payload.whollyKnown v.v = true)
+    (hg : getConv driverEnv v.ty want uns = some p) : (apply driverEnv fuel p v).isPanic = false :=
+  no_panic_getConversion_partial _ unifyLaws_driver setLaws_driver fuel uns v want p hp hk hg
+
+/-- A conversion offered as safe never fails, in the driver's environment. -/
+theorem safe_total_driver (fuel : Nat) (v : Value) (want : Ty) (p : Plan)
+    (hp : RegularPair v want) (hk : Payload.whollyKnown v.v = true)
+    (hg : getConversion driverEnv v.ty want = some p) :
+    (∃ r, apply driverEnv fuel p v = .ok r ∧ r.ty = want.stripOpt) ∨ apply driverEnv fuel p v = .unmodelled :=
+  safe_total_partial _ unifyLaws_driver setLaws_driver fuel v want p hp hk hg
+
+theorem safe_sub_unsafe_driver (v : Value) (want : Ty) (p : Plan)
+    (hp : RegularPair v want) (hg : getConversion driverEnv v.ty want = some p) :
+    ∃ p', getConversionUnsafe driverEnv v.ty want = some p' ∧
+      ∀ fuel, apply driverEnv fuel p' v = apply driverEnv fuel p v :=
+  safe_sub_unsafe_partial _ unifyLaws_driver v want p hp hg
+
+/-- the sample of the non-vacuity section, in the driver's environment: it really finishes -/
+example : (convert driverEnv 8 ⟨.list .bool, .seq [.b true, .null]⟩ (.list .string)).isOk = true := by decide
 
 /-! ## Non-vacuity: the hypotheses are satisfiable by non-trivial inputs -/
 
